@@ -50,7 +50,7 @@ impl Drop for C08 {
 
 pub const ARG_CLASSES: &[&str] = &[
     "nil", "true", "false", "0", "1", "-1", "small", "2^63", "2^64", "i128max", "i128min", "isize-min", "isize-max", "usize-max", "real", "nan", "inf", "neg-real",
-    "empty-str", "str", "str-75-multibyte", "num-str", "hexish-str", "empty-bits", "bits-aligned", "bits-odd", "bits-sliced", "empty-vec", "vec", "vec-nested", "vec-long", "empty-map",
+    "empty-str", "str", "str-75-multibyte", "num-str", "hexish-str", "empty-bits", "bits-aligned", "bits-odd", "bits-sliced", "empty-vec", "vec", "vec-nested", "vec-long", "vec-long-mixed", "empty-map",
     "map", "tagged-int", "tagged-fmt-handmade", "tagged-str", "read-result", "fun",
 ];
 
@@ -123,6 +123,22 @@ impl C08 {
                     c = Cell::Vector(v);
                 }
                 c
+            }
+            "vec-long-mixed" => {
+                // long enough for the library sort to notice an inconsistent order: values of several types, NaN, duplicates
+                let mut v = Xvec::new();
+                for i in 0..21 + rng.below(60) {
+                    v.push_back_mut(match rng.below(7) {
+                        0 => Cell::Int(rng.range(-5, 5) as i128),
+                        1 => Cell::from(rng.pick_str(&["a", "b", "", "zz"])),
+                        2 => Cell::Real(*rng.pick(&[0.5, -1.0, f64::NAN, f64::INFINITY, -0.0])),
+                        3 => Cell::Nil,
+                        4 => Cell::Flag(rng.flip()),
+                        5 => Cell::from(xeh::xeh_vec![i as i128 % 3]),
+                        _ => Cell::Int(i as i128),
+                    });
+                }
+                Cell::from(v)
             }
             "vec-long" => to_cell(&MV::Vec((0..12 + rng.below(40)).map(|i| MV::Int(i as i128)).collect()), &mut None),
             "empty-map" => Cell::Map(Xmap::new()),
